@@ -412,25 +412,42 @@ def brute(pas, si, di, d, rs):
     return set(np.nonzero((r2 < hi * hi) | (r2 < hj * hj))[0].tolist())
 
 
-def nbr_check(nn, pas, rs, rng, maxq=12):
-    """list of (si, di, d_oid, missing, extra) for inexact queries"""
-    bad = []
+def pick_queries(pas, rng, maxq=12):
+    """destination particles to query, by identity (oid), per array"""
+    out = []
+    for pa in pas:
+        nd = pa.get_number_of_particles()
+        out.append(list(range(nd)) if nd <= maxq else
+                   sorted(rng.sample(range(nd), maxq)))
+    return out
+
+
+def nbr_check(nn, pas, rs, oids):
+    """{(si, di, dst oid): (missing src oids, extra src oids)} for the
+    inexact queries among the chosen destination particles.  Particles are
+    named by their identity, so results before and after a re-ordering are
+    comparable."""
+    bad = {}
     nb = UIntArray()
+    oid = [p.get_carray('oid').get_npy_array() for p in pas]
     for di in range(len(pas)):
-        nd = pas[di].get_number_of_particles()
-        if nd == 0:
+        if not oids[di]:
             continue
-        ds = list(range(nd)) if nd <= maxq else rng.sample(range(nd), maxq)
+        slot = {int(o): k for k, o in enumerate(oid[di].tolist())}
         for si in range(len(pas)):
             nn.set_context(si, di)
-            for d in ds:
+            for o in oids[di]:
+                d = slot[o]
                 nn.get_nearest_particles(si, di, d, nb)
                 got = nb.get_npy_array().tolist()
                 want = brute(pas, si, di, d, rs)
                 if set(got) != want or len(got) != len(set(got)):
-                    oid = int(pas[di].get_carray('oid').get_npy_array()[d])
-                    bad.append((si, di, oid, sorted(want - set(got)),
-                                sorted(set(got) - want)))
+                    so = oid[si]
+                    bad[(si, di, o)] = (
+                        sorted(int(so[j]) for j in want - set(got)),
+                        sorted(int(so[j]) for j in set(got) - want
+                               if j < len(so)),
+                        len(got) != len(set(got)))
     return bad
 
 
@@ -518,7 +535,8 @@ def run_case(case, R, jobs, tagno):
                     for k, ax in enumerate('xyz'):
                         pa.get_carray(ax).get_npy_array()[:] = cur[k] / 64.0
                 nn.update()
-        before_bad = nbr_check(nn, pas, rs, random.Random(qrng.random()))
+        queries = pick_queries(pas, random.Random(qrng.random()))
+        before_bad = nbr_check(nn, pas, rs, queries)
         idxs, snaps, nreal0 = [], [], []
         for ai, pa in enumerate(pas):
             n = pa.get_number_of_particles()
@@ -603,18 +621,21 @@ def run_case(case, R, jobs, tagno):
             l0, _ = reorder_line(0, idxs[ai], nreal0[ai], snaps[ai])
             jobs.append((l0, show_pa(nreal, after, names), 'orig', case, tagno))
         # ---- oracle 4: neighbour queries after the update are exact
-        after_bad = nbr_check(nn, pas, rs, random.Random(qrng.random()))
-        if after_bad:
-            if before_bad:
-                R.count('nbr-inexact-already-before-reorder(C01):' + cls)
-            else:
-                si, di, oid, miss, extra = after_bad[0]
-                pf('C17:%s:neighbours-inexact-after-reorder' % cls,
-                   'round %d: neighbours of every particle equal brute force '
-                   'after reorder_particles()' % r,
-                   '%d inexact queries, e.g. src %d dst %d particle oid %d: '
-                   'missing %s extra %s' % (len(after_bad), si, di, oid,
-                                            miss[:5], extra[:5]))
+        after_bad = nbr_check(nn, pas, rs, queries)
+        # a query that was already inexact before the re-ordering (same
+        # particles, same positions) is C01's finding, not C17's
+        new_bad = {k: v for k, v in after_bad.items()
+                   if before_bad.get(k) != v}
+        if new_bad:
+            (si, di, o), (miss, extra, dup) = sorted(new_bad.items())[0]
+            pf('C17:%s:neighbours-inexact-after-reorder' % cls,
+               'round %d: neighbours of every particle equal brute force '
+               'after reorder_particles() (where they did before)' % r,
+               '%d queries became inexact, e.g. src array %d, dst array %d '
+               'particle oid %d: missing oids %s extra oids %s duplicates %s'
+               % (len(new_bad), si, di, o, miss[:5], extra[:5], dup))
+        elif after_bad:
+            R.count('nbr-inexact-before-and-after(C01):' + cls)
         elif before_bad:
             R.count('nbr-inexact-before-only(C01):' + cls)
         else:
